@@ -29,7 +29,7 @@ CLAIMED = {
              "evaluation of every CFG path with a semantics table for the __atomic/__sync builtins, comparing the stored and the "
              "returned value with the operation's specification term (fetch-vs-op-fetch, operand order of compare-exchange, "
              "dec_and_test polarity, SEQ_CST orders, strong CAS); indivisibility from the per-path event trace (one builtin and no "
-             "plain access; sync get/set barrier side; sim: every access inside the one global mutex, balanced, and that mutex is created by thread_init whenever it does not exist); operand width. " + DECIDES % "C04",
+             "plain access; sync get/set barrier side; sim: every access inside the one global mutex, balanced, and that mutex is created by thread_init whenever it does not exist and its pointer reset by thread_shutdown after the free); operand width. " + DECIDES % "C04",
         technique="symbolic term evaluation of each operation against a specification term + per-path event-trace discipline (lock coverage, barrier side, single RMW)"),
     "C02": dict(
         text="Rules C02.1-C02.6. posix model: six wrappers wired to the right pthread_rwlock call (through their static helper), "
@@ -63,7 +63,7 @@ CLAIMED = {
              "into (recvfrom, getsockname, getpeername, accept) holds a sockaddr_in6 with its length object initialised accordingly; SIGPIPE is ignored at library "
              "initialisation or MSG_NOSIGNAL is passed; EAGAIN/EWOULDBLOCK/EINPROGRESS map to the codes the retry logic tests; connected is "
              "set only after connect==0 or wait+SO_ERROR==0, and SO_ERROR is read only on paths carrying the fact that the writability "
-             "wait succeeded; a condition wait that returned TRUE is followed by the native call, one that returned FALSE by a failure return. " + DECIDES % "C09",
+             "wait succeeded; a condition wait that returned TRUE is followed by the native call, one that returned FALSE by a failure return; receive_from builds the sender address on every non-failure return with an address requested, a zero-length datagram included. " + DECIDES % "C09",
         technique="scenario-seeded guard dataflow per call site (EINTR / would-block), alias-based result provenance, switch-table recovery, type-width check of the length path"),
     "C10": dict(
         text="Rules C10.1-C10.6 on psocket.c (C10.5 includes: a flag stored into a bit-field narrower than its source is normalised to 0/1): every read of socket->fd in an operation is reached only after the closed test passed "
@@ -72,7 +72,7 @@ CLAIMED = {
              "in the would-block scenario; the descriptor inside a PSocket is always non-blocking (the one fcntl(F_SETFL) setter ORs O_NONBLOCK when asked for blocking=FALSE, and every "
              "constructor that installs a descriptor passes through it with FALSE before returning the object); poll gets the socket timeout when positive else a negative constant, fixed before the retry loop, "
              "0 -> TIMED_OUT, 1 -> TRUE, and a poll that returned 0 or 1 is never re-issued (whatever errno holds); getters return the field their setter writes; socket()/accept() descriptors get close-on-exec on "
-             "every success path; shutdown () gets SHUT_RDWR / SHUT_RD / SHUT_WR exactly for both / read / write and connected is cleared after both." + COMMON + DECIDES % "C10",
+             "every success path; shutdown () gets SHUT_RDWR / SHUT_RD / SHUT_WR exactly for both / read / write and connected is cleared after both; check_connect_result stores connected = (SO_ERROR == 0) on every return after a successful getsockopt." + COMMON + DECIDES % "C10",
         technique="guard dataflow with dominance of the closed check, scenario flows (non-blocking would-block, successful creation), term evaluation of the poll timeout, field-agreement of getters/setters"),
     "C06": dict(
         text="Rules C06.1-C06.5. C06.1-C06.4 on psemaphore-posix.c: name typestate in the create path (exclusive create first; never a plain open of a name "
@@ -81,7 +81,7 @@ CLAIMED = {
              "ownership, close always / unlink only when owner, acquire/release wiring with exact result mapping, key identity (the key derivation in pipc.c refers to no static or global variable, so concurrent opens of different names cannot meet). C06.5 on psemaphore-sysv.c (not selectable in the Linux build, "
              "analysed with the POSIX unit's flags): semop -1 / +1 on semaphore 0 from constant sembuf objects, blocking, with the same undo flag "
              "in both directions, every semop retried on EINTR; exclusive semget first, ownership only on its success, SETVAL exactly when owned or "
-             "in CREATE mode, IPC_RMID only by the owner, id tests separate exactly -1 from the valid ids, the key file is created exclusively. The constructor records mode and initial value before the create path runs and sizes the name buffer for name + suffix + NUL." + COMMON + DECIDES % "C06",
+             "in CREATE mode, IPC_RMID only by the owner, id tests separate exactly -1 from the valid ids, the key file is created exclusively. The constructor records mode and initial value before the create path runs and sizes the name buffer for name + suffix + NUL; the recording fields are as wide as the arguments." + COMMON + DECIDES % "C06",
         technique="path-sensitive typestate over the IPC name (unknown/exists/absent) with guard facts on mode and errno; wiring and who-writes-field checks"),
     "C07": dict(
         text="Rules C07.1-C07.6. C07.1-C07.5 on pshm-posix.c: mmap parameters (MAP_SHARED, offset 0, shm_open descriptor, size field, protection by "
@@ -89,7 +89,7 @@ CLAIMED = {
              "flag, unlink only when owner); descriptor closed exactly once on every path; lock semaphore on the same key with value 1 and "
              "CREATE iff creator, lock/unlock wiring; the field munmap uses as length equals the mapped length and is frozen while mapped. C07.6 on pshm-sysv.c (analysed with "
              "the POSIX unit's flags): exclusive shmget with the requested size first, plain lookup with size 0 otherwise, reported size from "
-             "shm_segsz, lock semaphore CREATE exactly for the creator, IPC_RMID only with no attachment left, lock/unlock wiring, id tests separate exactly -1 from the valid ids." + COMMON + DECIDES % "C07",
+             "shm_segsz, lock semaphore CREATE exactly for the creator, IPC_RMID only with no attachment left, lock/unlock wiring, id tests separate exactly -1 from the valid ids; st_size reaches the size field without a narrower cast." + COMMON + DECIDES % "C07",
         technique="path-sensitive typestate (descriptor open/closed, role creator/follower, size provenance) with guard facts; frozen-field rule between mmap and munmap"),
     "C08": dict(
         text="Rules C08.1-C08.8 on pshmbuffer.c (+ the reported-size half of C08.4 on pshm-posix.c): every segment access and every call of "
@@ -112,7 +112,7 @@ CLAIMED = {
              "on every path afterwards; join refuses non-joinable, waits on its handle, then reads ret_code; exit "
              "stores the code before the native exit for library threads only; the key notifier is called only by replace_local under both "
              "NULL tests before the new value is stored and is the native key's destructor; first-use key creation frees/deletes on the "
-             "losing and failing paths. " + DECIDES % "C05",
+             "losing and failing paths; shutdown resets the globals whose objects it released. " + DECIDES % "C05",
         technique="spinlock typestate over the creator path, dominance rules for the proxy and join, who-touches-field rule for ref_count, guard dataflow at release and notifier calls, holder typestate in the TLS key creation"),
     "C11": dict(
         text="Rules C11.1-C11.8 on pcryptohash*.c: dispatch table (every enumerator has a case, six slots from one algorithm unit, "
@@ -153,7 +153,7 @@ CLAIMED = {
              "not survive in another node, one node is freed; the replace path hands the old pair to the notifiers before storing the new one; "
              "clear destroys every released node's pair first and free goes through clear; every notifier call is NULL-guarded; the library "
              "never frees or writes through user keys/values; no path reads or re-releases a node after handing it to p_free (the notifiers get what the "
-             "node held); in the remove functions nothing touches a link, colour or factor and no balancing runs after the first notifier call. " + DECIDES % "C14",
+             "node held); in the remove functions nothing touches a link, colour or factor and no balancing runs after the first notifier call; a call through the free_node slot counts as the release of the node. " + DECIDES % "C14",
         technique="abstract interpretation of node/pair identity (term flow with widened descent and predecessor loops) with exit obligations on notifier arguments"),
     "C15": dict(
         text="Rules C15.1-C15.6 on phashtable.c / plist.c: no key-dependent arithmetic in a signed type in the bucket computation; every bucket "
@@ -182,7 +182,7 @@ CLAIMED = {
              "(offsets and sizes from the record layouts); to_native and new_from_native copy the same (object field, native byte range) "
              "pairs per family, port byte-swapped both ways and nothing else, family constants agree; get_native_size and to_native's guard "
              "use the same structure sizes, and new_from_native treats its length as a lower bound only (a longer buffer, as the kernel reports for sockaddr_storage, is accepted); text path restricted to numeric hosts with the addrinfo result freed on every path, and present "
-             "(after preprocessing) whenever the unit's compile flags provide getaddrinfo and a scope id; is_any compares with 0.0.0.0 and is_loopback tests 127.0.0.0/8 on a byte-swapped copy carrying all 32 bits (C17.5). " + DECIDES % "C17",
+             "(after preprocessing) whenever the unit's compile flags provide getaddrinfo and a scope id; is_any compares with 0.0.0.0 and is_loopback tests 127.0.0.0/8 on a byte-swapped copy carrying all 32 bits (C17.5); inet_ntop gets room for the longest text of each family. " + DECIDES % "C17",
         technique="guard dataflow lower bounds against record layouts, sibling field-pair agreement, constant-table agreement"),
     "C18": dict(
         text="Rules C18.1-C18.6 over every function of the 37 analysed units that acquires a resource (every allocation site is treated "
